@@ -230,24 +230,36 @@ def r5(c):
     facts = q.cmp_facts(b)
     xs = [x for x in q.exits(b) if x['kind'] == 'agg' and x['variant'] == 'Ok']
     ok = bool(xs)
+    csub = [cs for cs in b.calls() if cs.callee and cs.callee.endswith('::checked_sub') and q.is_name(b, cs.args[0], 'count') and q.const_val(b, cs.args[1]) == 1]
+
+    def count_minus_one(o):
+        s_ = q.sem(b, o)
+        if s_.kind == 'bin' and s_.extra[1].startswith('Sub') and q.is_name(b, s_.extra[2], 'count') and q.const_val(b, s_.extra[3]) == 1:
+            return True
+        return s_.kind == 'call' and s_.cs in csub and q.has_success(s_.proj)
+
+    def is_max_start(o):
+        """u16::MAX - (count - 1): the largest start for which start + count - 1 fits"""
+        s_ = q.sem(b, o)
+        if not (s_.kind == 'bin' and s_.extra[1].startswith('Sub')):
+            return False
+        a0 = s_.extra[2]
+        return (q.const_val(b, a0) == 65535 or str(q.const_def(b, a0) or '').endswith('::MAX')) and count_minus_one(s_.extra[3])
+    okm = False
     for x in xs:
-        ok = ok and q.has_fact(b, x['node'], 'ne', lambda a: q.is_name(b, a, 'count'), lambda o: q.const_val(b, o) == 0, facts)
-        ok = ok and q.has_fact(b, x['node'], 'le', lambda a: q.is_name(b, a, 'start'), lambda o: q.is_name(b, o, 'max_start'), facts)
+        nz = q.has_fact(b, x['node'], 'ne', lambda a: q.is_name(b, a, 'count'), lambda o: q.const_val(b, o) == 0, facts) or \
+            q.has_fact(b, x['node'], 'lt', lambda o: q.const_val(b, o) == 0, lambda a: q.is_name(b, a, 'count'), facts) or \
+            q.has_fact(b, x['node'], 'le', lambda o: q.const_val(b, o) == 1, lambda a: q.is_name(b, a, 'count'), facts) or \
+            any(q.dominated_by_any(b, q.outcomes(b, cs).get('Some', []), x['node']) for cs in csub)
+        ok = ok and nz
+        fit = q.has_fact(b, x['node'], 'le', lambda a: q.is_name(b, a, 'start'), is_max_start, facts)
+        okm = okm or fit
+        ok = ok and fit
         s = q.sem(b, x['rv']['a'][0])
         okf = s.kind == 'agg' and q.is_name(b, s.extra['a'][0], 'start') and q.is_name(b, s.extra['a'][1], 'count')
         ok = ok and okf
-    c.ob('try_from/guards', ok, 'the Ok exit carries count != 0 and start <= max_start and stores (start, count) unchanged', '%d Ok exits' % len(xs), loc_of(b))
-    # max_start = u16::MAX - (count - 1)
-    ms = b.names.get('max_start')
-    okm = False
-    if ms:
-        org = b.origin_place(ms) if False else None
-        ds = b.defs().get(ms['l'], [])
-        if len(ds) == 1 and ds[0][0] == 'assign':
-            cl = b.op_closure({'k': 'copy', 'pl': ms})
-            okm = any(x[0] == 'c' and 'MAX' in str(x[1]) for x in cl) and 'count' in q.closure_names(b, {'k': 'copy', 'pl': ms}) and \
-                'start' not in q.closure_names(b, {'k': 'copy', 'pl': ms})
-    c.ob('try_from/max_start', okm, 'max_start derives from u16::MAX and count only', '', loc_of(b))
+    c.ob('try_from/guards', ok, 'the Ok exit carries count != 0 and start <= u16::MAX - (count - 1) and stores (start, count) unchanged', '%d Ok exits' % len(xs), loc_of(b))
+    c.ob('try_from/max_start', okm, 'the bound start is compared with is u16::MAX - (count - 1)', '', loc_of(b))
     errs = {x['rv']['a'][0] and q.agg_variant_of(b, x['rv']['a'][0]) for x in q.exits(b) if x['kind'] == 'agg' and x['variant'] == 'Err'}
     c.ob('try_from/errors', errs == {('rodbus::error::InvalidRange', 'CountOfZero'), ('rodbus::error::InvalidRange', 'AddressOverflow')}, 'the two rejections are CountOfZero and AddressOverflow', str(errs), loc_of(b))
     p = P.fn(AR_PARSE)
@@ -270,15 +282,27 @@ def r6(c):
     c.ob('const/OFF', P.const('rodbus::constants::coil::OFF') == 0, 'coil::OFF = 0x0000', str(P.const('rodbus::constants::coil::OFF')))
     b = P.fn('rodbus::types::coil_from_u16')
     c.saw(b)
-    _, arms = one(q.int_arms(b, lambda s: q.sem_is_name(b, s, 'value')), 'integer match in coil_from_u16')
+    ia = q.int_arms(b, lambda s: q.sem_is_name(b, s, 'value'))
+    arms = ia[0][1] if len(ia) == 1 else {}
+    facts = q.cmp_facts(b)
     exs = q.exits(b)
+
+    def is_v(o):
+        return q.is_name(b, o, 'value')
+
+    def guarded(x, val):
+        """the exit is taken only for value == val: it lies in that arm of a match on `value`, or is dominated by value == val"""
+        return x['node'] in arms.get(str(val), set()) or q.has_fact(b, x['node'], 'eq', is_v, lambda o: q.const_val(b, o) == val, facts)
+    oks = [x for x in exs if x['kind'] == 'agg' and x['variant'] == 'Ok']
     for val, want in ((0xFF00, '1'), (0, '0')):
-        xs = q.exit_in(b, arms.get(str(val), set()), exs)
-        ok = len(xs) == 1 and xs[0]['kind'] == 'agg' and xs[0]['variant'] == 'Ok' and xs[0]['rv']['a'][0].get('val') == want
-        c.ob('from/%#06x' % val, ok, 'coil_from_u16(%#06x) = Ok(%s)' % (val, 'true' if want == '1' else 'false'), '', loc_of(b))
-    xs = q.exit_in(b, arms.get('otherwise', set()), exs)
-    ok = len(xs) == 1 and xs[0]['kind'] == 'agg' and xs[0]['variant'] == 'Err'
-    c.ob('from/otherwise', ok and sorted(k for k in arms if k != 'otherwise') == ['0', '65280'], 'every other value is Err(UnknownCoilState)', str(sorted(arms)), loc_of(b))
+        xs = [x for x in oks if guarded(x, val)]
+        ok = len(xs) == 1 and xs[0]['rv']['a'][0].get('val') == want
+        c.ob('from/%#06x' % val, ok, 'coil_from_u16(%#06x) = Ok(%s)' % (val, 'true' if want == '1' else 'false'), '%d exits' % len(xs), loc_of(b))
+    stray = [x for x in oks if not guarded(x, 0xFF00) and not guarded(x, 0)]
+    errs = [x for x in exs if not (x['kind'] == 'agg' and x['variant'] == 'Ok')]
+    ok = len(errs) == 1 and errs[0]['kind'] == 'agg' and errs[0]['variant'] == 'Err' and not stray and len(oks) == 2 and \
+        (not arms or sorted(k for k in arms if k != 'otherwise') == ['0', '65280'])
+    c.ob('from/otherwise', ok, 'every other value is Err(UnknownCoilState): no Ok exit outside the two guarded ones', '%d unguarded Ok exits, %d other exits' % (len(stray), len(errs)), loc_of(b))
     t = P.fn('rodbus::types::coil_to_u16')
     cl = {x[1] for x in t.op_closure({'k': 'copy', 'pl': {'l': 0, 'p': []}}) if x[0] == 'c'}
     c.ob('to', any('coil::ON' in str(x) for x in cl) and any('coil::OFF' in str(x) for x in cl), 'coil_to_u16 yields ON / OFF', str(sorted(map(str, cl))), loc_of(t))
